@@ -12,7 +12,7 @@ import itertools
 
 from ..finite import Unrecognised, ev_int
 from ..program import AnalysisError
-from ..rules import is_call, is_mcall, mentions
+from ..rules import Arms, is_call, is_mcall, mentions
 from ..terms import C, Evaluator, G, P, is_t, mk_proj, show, subterms
 from .C20 import flag_tables
 
@@ -128,7 +128,7 @@ def run(chk, prog):
     chk.require(ok, "MASK-TABLE", "Mask.__invert__", "negates the flag only", derived=show(r.ret), expected="Mask(self.value, tree_map(FlagOp.not_, self.flag))", where=W("__invert__"))
     # build
     r = ev.eval_fn(M.methods["build"], M.module, M)
-    got = {}
+    got = Arms()
     for conds, ret in r.returns:
         got["mask" if any(is_t(t, "isinst") and t[2] == "Mask" and p for t, p in conds) or any(is_t(t, "bool") and p for t, p in conds) else "plain"] = ret
     V, Fp = P("v"), P("f")
@@ -140,7 +140,7 @@ def run(chk, prog):
     ev2 = Evaluator(prog)
     ev2.opaque_methods.add("primal_flag")
     r = ev2.eval_fn(M.methods["flatten"], M.module, M)
-    got = {}
+    got = Arms()
     for conds, ret in r.returns:
         pos = [t for t, p in conds if p]
         if any(is_call(t, "concrete_false") for t in pos):
@@ -153,7 +153,7 @@ def run(chk, prog):
     chk.require(okf, "MASK-TABLE", "Mask.flatten", "concrete False -> None, concrete True -> value, else self", derived={k: show(v) for k, v in got.items()}.__str__(), expected="None / self.value / self", where=W("flatten"))
     # unmask
     r = ev2.eval_fn(M.methods["unmask"], M.module, M)
-    got = {}
+    got = Arms()
     for conds, ret in r.returns:
         got["nodefault" if any(t == ("is", P("default"), C(None)) and p for t, p in conds) else "default"] = ret
     d = got.get("default")
@@ -195,7 +195,7 @@ def run(chk, prog):
                 expected="reshape(flag, shape(flag) + (1,) * (ndim(leaf) - ndim(flag))) for array flags of lower rank; the flag itself otherwise", where=W("unmask"))
     # primal_flag
     r = Evaluator(prog).eval_fn(M.methods["primal_flag"], M.module, M)
-    got = {}
+    got = Arms()
     FL = ("attr", SELF, "flag")
     for conds, ret in r.returns:
         got["diff" if any(is_t(t, "isinst") and t[2] == "Diff" and p for t, p in conds) else "plain"] = ret
